@@ -846,6 +846,15 @@ def m_round(ex, callee, args):
     return FP(z3.fpRoundToIntegral(z3.RNA(), a.v))
 
 
+@model(r'^<.* as (std::ops::)?Drop>::drop$')
+def m_drop(ex, callee, args):
+    # a Drop impl of the crate itself is executed; dropping std containers / boxes has no observable effect here
+    f = ex.prog.resolve_call(callee)
+    if f is not None:
+        return ex.call_mir(f, args)
+    return UNIT
+
+
 def _ordering(name):
     return Adt('Ordering', ['Less', 'Equal', 'Greater'].index(name), name, [])
 
